@@ -1,7 +1,4 @@
 // Lemma library over the NTT specification (no code involved).
-pub open spec fn cong(x: int, y: int) -> bool { (x - y) % 12289 == 0 }
-
-//@include prelude/ntt_math_core.rs
 
 proof fn lemma_cong_modq(x: int, y: int)
     ensures cong(x, y) <==> modq(x) == modq(y)
@@ -47,9 +44,11 @@ proof fn lemma_cong_trans(a: int, b: int, c: int)
     assert(cong(a, c) && cong(b, a)) by (nonlinear_arith) requires cong(a, b), cong(b, c);
 }
 
+//@include prelude/ntt_math_core.rs
+
 /// what `verify` computes in the transform domain is the transform of c - s2*h
 proof fn lemma_s1_is_ntt(c: Seq<int>, a: Seq<int>, b: Seq<int>, x: Seq<int>)
-    requires pow2(c.len() as int), a.len() == c.len(), b.len() == c.len(), x.len() == c.len(),
+    requires table_facts(), pow2(c.len() as int), a.len() == c.len(), b.len() == c.len(), x.len() == c.len(),
              canon_seq(c), canon_seq(a), canon_seq(b),
              forall|i: int| 0 <= i < x.len() ==> #[trigger] x[i] == modq(ntt_of(c)[i] - modq(ntt_of(a)[i] * ntt_of(b)[i])),
     ensures ({ let p = Seq::new(c.len(), |k: int| modq(c[k] - negacyclic(a, b)[k])); x == ntt_of(p) && canon_seq(p) })
